@@ -378,6 +378,12 @@ func (r *UnifiedMemoryModelRegistry) RemoveEndpoint(ctx context.Context, endpoin
 	r.unificationMutex.Lock()
 	defer r.unificationMutex.Unlock()
 
+	// The unifier keeps its own catalogue, which alias/name resolution reads: an empty listing
+	// makes it drop this endpoint as well, otherwise lookups by alias keep returning it.
+	if _, uerr := r.unifier.UnifyModels(ctx, nil, &domain.Endpoint{URLString: endpointURL, Name: endpointURL}); uerr != nil {
+		r.logger.Warn("Failed to clear unifier catalogue for removed endpoint", "endpoint", endpointURL, "error", uerr)
+	}
+
 	// Remove endpoint from all unified models
 	r.globalUnified.Range(func(id string, model *domain.UnifiedModel) bool {
 		// we're capturing model metadata BEFORE mutation to avoid accessing empty slices
